@@ -323,7 +323,7 @@ def run(scn, prop=None):
 
             def delivered(s_):
                 # the asyncio transport's deliveries do not pass through read_nonblocking: record them here
-                if aio['await']:
+                if aio['await'] and not getattr(child, '_in_rnb', 0):
                     child.chunks.append(s_)
             aio['tap'] = delivered
             harness.tap_reads(child, delivered)
